@@ -78,6 +78,7 @@ pub struct Stats {
     pub try_unwrap_ok: Cell<u64>,
     pub try_unwrap_err: Cell<u64>,
     pub c02_checks: Cell<u64>,
+    pub c02_nested_checks: Cell<u64>,
     pub c02_garbage_objects: Cell<u64>,
     pub pinned_garbage_left: Cell<u64>,
     pub buffer_exact_checks: Cell<u64>,
@@ -180,6 +181,8 @@ pub struct World {
     pub expected_panics: Cell<u32>,
     /// C19: yield to other threads after every n-th operation (0 = never)
     pub yield_every: Cell<u32>,
+    /// a collect-until-quiet loop requested from a callback is running (do not start another one inside it)
+    pub nested_quiet: Cell<bool>,
 }
 
 impl World {
@@ -239,6 +242,7 @@ impl World {
             drop_phase_id: Cell::new(0),
             expected_panics: Cell::new(0),
             yield_every: Cell::new(0),
+            nested_quiet: Cell::new(false),
         }
     }
 }
